@@ -67,6 +67,32 @@ Proof.
   simpl; intros i [<-|[<-|[<-|[<-|[]]]]]; auto.
 Qed.
 
+(* Do on an EMPTY work set (no Add before Do) is an instance of every theorem (inits = []): all
+   runners start at the loop head with nothing queued, each parks except the last one in, which
+   broadcasts; Do returns, f is never called *)
+Example ex_work_empty_init : init_state 2 [] = mkState [Top; Top] [] [] 0 [] [].
+Proof. reflexivity. Qed.
+Example ex_work_empty_run :
+  run 2 ex_children [(1, 0); (0, 0); (1, 0)] (init_state 2 []) = Some (mkState [Done; Done] [] [] 2 [] []).
+Proof. vm_compute. reflexivity. Qed.
+Example ex_work_empty_n1 :
+  run 1 ex_children [(0, 0)] (init_state 1 []) = Some (mkState [Done] [] [] 1 [] []).
+Proof. vm_compute. reflexivity. Qed.
+Example ex_work_empty_nothing_to_do : forall i, ~ reach ex_children [] i.
+Proof. intros i H; induction H as [i []|]; auto. Qed.
+Example ex_work_empty_returns : forall s, reachable 2 ex_children [] s -> nth_error (pcs s) 0 = Some Done ->
+  todo s = [] /\ started s = [] /\ finished s = [].
+Proof.
+  intros s Hr H0. assert (Hn : work_do_min_n <= 2) by (unfold work_do_min_n; lia).
+  destruct (do_returns 2 ex_children [] Hn s Hr H0) as (Htd & _ & Hre & _).
+  destruct (exactly_once_safety 2 ex_children [] Hn s Hr) as (_ & _ & _ & _ & Hall).
+  repeat split; auto.
+  - destruct (started s) as [|i l] eqn:E; auto. exfalso. apply (ex_work_empty_nothing_to_do i).
+    apply (Hall i). do 2 right; left; simpl; auto.
+  - destruct (finished s) as [|i l] eqn:E; auto. exfalso. apply (ex_work_empty_nothing_to_do i).
+    apply Hre. left; auto.
+Qed.
+
 (* ---- par.Cache *)
 Definition ex_fval (k : nat) : nat := 100 + k.
 Definition ex_progs : list (list call) := [[CDo 0; CGet 1]; [CGet 0; CDo 0]; [CDo 1]].
